@@ -31,14 +31,24 @@ func Bubble(t *testing.T, fn func()) (failure string) {
 // Settle blocks until every other goroutine of the bubble is durably blocked.
 func Settle() { synctest.Wait() }
 
-var bubbleHdr = regexp.MustCompile(`(?m)^goroutine \d+ \[[^\]]*synctest bubble \d+[^\]]*\]:$`)
+var bubbleHdr = regexp.MustCompile(`(?m)^goroutine \d+ \[[^\]]*synctest bubble (\d+)[^\]]*\]:$`)
 
-// BubbleGoroutines returns the stacks of the goroutines that belong to a
-// synctest bubble (call from inside the bubble, after Settle).
+// BubbleGoroutines returns the stacks of the goroutines that belong to the
+// CALLER's synctest bubble (call from inside the bubble, after Settle).
+// Goroutines of other (earlier, possibly abandoned) bubbles are ignored.
 func BubbleGoroutines() []string {
 	var out []string
-	for _, g := range strings.Split(Stacks(), "\n\n") {
-		if bubbleHdr.MatchString(g) {
+	gs := strings.Split(Stacks(), "\n\n")
+	if len(gs) == 0 {
+		return nil
+	}
+	m := bubbleHdr.FindStringSubmatch(gs[0]) // the first stack is the calling goroutine
+	if m == nil {
+		return nil
+	}
+	mine := m[1]
+	for _, g := range gs[1:] {
+		if mm := bubbleHdr.FindStringSubmatch(g); mm != nil && mm[1] == mine {
 			out = append(out, g)
 		}
 	}
